@@ -269,7 +269,7 @@ def _c08_extra(seed, quick):
 def _c07_extra(seed, quick):
     return (conc_shards("C07", seed, "same-key", 24 if quick else 400, 40 if quick else 400, shards=1) + conc_shards("C07", seed, "held-client", 600 if quick else 20000, 40 if quick else 400, shards=1)
             + conc_shards("C07", seed, "mixed", 40 if quick else 600, 40 if quick else 400, shards=3) + conc_shards("C07", seed, "locked-shard", 24 if quick else 2000, 40 if quick else 400, shards=1)
-            + conc_shards("C07", seed, "fanout", 30 if quick else 3000, 40 if quick else 400, shards=1))
+            + conc_shards("C07", seed, "fanout", 30 if quick else 3000, 40 if quick else 400, shards=1) + conc_shards("C07", seed, "sweep-other-key", 144 if quick else 3000, 40 if quick else 400, shards=1))
 
 
 def _c03_extra(seed, quick):
